@@ -536,7 +536,7 @@ func (r *Run) exec(s SymStep) StepRec {
 		r.k.secret(pw, "password")
 		u, err := w.st.Load(nil2ctx(), a.PID)
 		if err == nil {
-			err = w.ab.UpdatePassword(nil2ctx(), u.(*User), pw)
+			err = w.ab.UpdatePassword(nil2ctx(), unwrapUser(u), pw)
 			if err == nil {
 				a.Password = pw
 			}
@@ -547,7 +547,7 @@ func (r *Run) exec(s SymStep) StepRec {
 		rec.Action = &Action{Kind: "startconfirm", PID: hx(a.PID)}
 		u, err := w.st.Load(nil2ctx(), a.PID)
 		if err == nil {
-			err = w.confM.StartConfirmation(nil2ctx(), u.(*User), true)
+			err = w.confM.StartConfirmation(nil2ctx(), unwrapUser(u), true)
 		}
 		errored = err != nil
 	case "plant":
